@@ -40,6 +40,7 @@ type unstakeRec struct {
 	amt    *big.Int
 	height int64
 	mature int64 // loosest reading of height + maturity
+	strict int64 // strictest reading
 }
 
 // C11Mon is the statement-level stake lifecycle accumulator of one history.
@@ -134,7 +135,7 @@ func (m *C11Mon) OnBlock(blk *hist.Block) []Finding {
 			}
 		case "UNSTAKE":
 			addTo(unstakedNow, deleg, amt)
-			m.unstakes[deleg] = append(m.unstakes[deleg], unstakeRec{amt, blk.H, blk.H + matLoose})
+			m.unstakes[deleg] = append(m.unstakes[deleg], unstakeRec{amt, blk.H, blk.H + matLoose, blk.H + max64(po.MaturityTime, co.MaturityTime)})
 			if Frozen(blk.Prev, val) && Frozen(blk.Cur, val) {
 				out = append(out, Finding{"C11", "C11/frozen/UNSTAKE", fmt.Sprintf("block %d: UNSTAKE on validator %s succeeded although it is frozen before and after the block", blk.H, val)})
 			}
@@ -216,6 +217,17 @@ func (m *C11Mon) OnBlock(blk *hist.Block) []Finding {
 			}
 		}
 		have := new(big.Int).Add(amountAt(blk.Cur, "st__d_b_"+d), get(m.withdrawn, d))
+		// ... and the other way round: what was unstaked and has passed its unlock height (strictest reading,
+		// one block of slack) is withdrawable or has been withdrawn
+		due := new(big.Int).Set(get(m.bounded0, d))
+		for _, u := range m.unstakes[d] {
+			if u.strict+1 <= blk.H {
+				due.Add(due, u.amt)
+			}
+		}
+		if have.Cmp(due) < 0 {
+			out = append(out, Finding{"C11", "C11/unlock/not-withdrawable-after-maturity", fmt.Sprintf("block %d: %s has unstaked %s OLT that passed unstake height + maturity more than a block ago; it has withdrawn %s and the records call only %s withdrawable", blk.H, d, due, get(m.withdrawn, d), amountAt(blk.Cur, "st__d_b_"+d))})
+		}
 		if have.Cmp(matured) > 0 {
 			out = append(out, Finding{"C11", "C11/withdrawable/before-maturity", fmt.Sprintf("block %d: %s has withdrawn %s OLT and the records call another %s withdrawable, but only %s OLT of its unstakes have reached unstake height + maturity (%d) by this block", blk.H, d, get(m.withdrawn, d), amountAt(blk.Cur, "st__d_b_"+d), matured, matLoose)})
 		}
